@@ -111,6 +111,10 @@ func c15Scenario(s c15Spec) explore.Scenario {
 				g.Go(fmt.Sprintf("caller%d", ci), func() {
 					for _, o := range s.callers[ci] {
 						f := files[o.handle]
+						// call and return are operations on one shared object: their order (the real-time order the
+						// history is judged with) is then part of the happens-before relation, which makes the state
+						// cache sound for this harness
+						vsched.Env("lin.call", &hist, false, nil)
 						op := lin.Op{Client: ci, Kind: o.kind, Off: o.off, Handle: o.handle, Call: int64(2*vsched.StepNo() + 1)}
 						switch o.kind {
 						case "pread": // at the File's own position, shared by the goroutines that share the File
@@ -150,6 +154,7 @@ func c15Scenario(s c15Spec) explore.Scenario {
 								op.N = int(fi.Size())
 							}
 						}
+						vsched.Env("lin.return", &hist, false, nil)
 						op.Return = int64(2 * vsched.StepNo())
 						if op.Return < op.Call {
 							op.Return = op.Call
@@ -305,7 +310,7 @@ func init() {
 					j("rs W=2 store read fails part-way db3", "instr-w2", "rs", "partial", 3, 600, false),
 					j("rs W=2 Read/Write at the shared File position db3", "instr-w2", "rs", "pos", 3, 600, false),
 					j("os W=2 Read/Write at the shared File position db3", "instr-w2", "os", "pos", 3, 600, false),
-				}, nil) // no state cache: the oracle reads the global step counter (real-time order of calls and returns)
+				}, func(j reg.Job) bool { return j.Args["server"] != "os" })
 			}
 			return withPolicies(tier, []reg.Job{
 				j("rs W=2 2x2 db2", "instr-w2", "rs", "2x2", 2, 100, false),
@@ -313,7 +318,7 @@ func init() {
 				j("os W=2 2x1 db2 alloc", "instr-w2", "os", "2x1", 2, 60, true),
 				j("rs W=2 store read fails part-way db2", "instr-w2", "rs", "partial", 2, 100, false),
 				j("rs W=2 Read/Write at the shared File position db2", "instr-w2", "rs", "pos", 2, 100, false),
-			}, nil)
+			}, func(j reg.Job) bool { return j.Args["server"] != "os" })
 		},
 	})
 }
